@@ -61,10 +61,15 @@ def tyOfString : String → Except String Ty
   | "float" => .ok .float
   | "optInt" => .ok .optInt
   | "listInt" => .ok .listInt
+  | "optListInt" => .ok .optListInt
+  | "optDictStrInt" => .ok .optDictStrInt
+  | "optTupleIntStr" => .ok .optTupleIntStr
+  | "optLitAB" => .ok .optLitAB
   | s => .error ("bad ty " ++ s)
 
 def tyToString : Ty → String
   | .int => "int" | .str => "str" | .bool => "bool" | .float => "float" | .optInt => "optInt" | .listInt => "listInt"
+  | .optListInt => "optListInt" | .optDictStrInt => "optDictStrInt" | .optTupleIntStr => "optTupleIntStr" | .optLitAB => "optLitAB"
 
 def jBool (j : Json) (k : String) : Bool :=
   match j.getObjVal? k with
